@@ -396,6 +396,10 @@ func runC15(c *Ctx) {
 		}
 		c.Run(resolveReparse(calls))
 	}
+	// keys assembled from caller-owned slices inside larger buffers
+	for k := 0; k < c.Pick(16, 160); k++ {
+		c.Run([]Event{hdCfg(), {"op": "PartsPurity", "seed": ints(randBytes(r, 32)), "private": k%2 == 0}})
+	}
 	// random histories on up to 8 keys
 	for k := 0; k < c.Pick(60, 800); k++ {
 		calls := []Event{hdCfg(), {"op": "NewMaster", "dst": 1, "seed": ints(randBytes(r, 32)), "net": 1}}
